@@ -251,8 +251,77 @@ func c01Check(r *Run, cfg any, hist []hop, label string) (illegal int) {
 // shard lock but is parked (hook H5) before its in-flight record is
 // unregistered. Another client reads the value, a Delete completes, then a
 // Get is invoked. The recorded history is checked like any other.
+// c01Storm: many goroutines Get a handful of keys of ONE shard from a loading cache so small that almost every Get
+// misses, so loads of the same key and of neighbour keys start, are joined and finish all the time. The loader
+// returns a value that names its key: a Get that comes back with a value made for another key (or made by a load
+// that started after the Get returned) cannot be explained by any order of the operations. No history is recorded
+// and no checker runs: tens of millions of Gets per minute reach windows of a few instructions.
+func c01Storm(r *Run, idx int) {
+	rng := r.Rng(int64(91000 + idx))
+	var seq atomic.Int64
+	b := theine.NewBuilder[int, int64]([]int64{1, 2, 4}[rng.Intn(3)]).UseEntryPool(idx%3 == 2 && r.Args["racepass"] == "")
+	c, err := b.Loading(func(ctx context.Context, k int) (theine.Loaded[int64], error) {
+		return theine.Loaded[int64]{Value: int64(k)<<40 | seq.Add(1), Cost: 1}, nil
+	}).Build()
+	if err != nil {
+		r.Broken("build: %v", err)
+		return
+	}
+	defer c.Close()
+	st := c.VerifStore()
+	var keys []int
+	for k := 1; len(keys) < 6; k++ {
+		if st.VerifShardOf(k) == st.VerifShardOf(1) {
+			keys = append(keys, k)
+		}
+	}
+	G := []int{4, 8, 16}[rng.Intn(3)]
+	rounds := r.Pick(40000, 400000)
+	var wrong atomic.Int64
+	var first atomic.Value
+	// round-synchronised: in every round all goroutines Get the same (just deleted, so absent) key at the same
+	// instant - one becomes the leader of the load, the others join it or arrive just after - and the next round
+	// does the same with a neighbour key of the shard straight away
+	var round, done atomic.Int64
+	var wg sync.WaitGroup
+	for g := 0; g < G; g++ {
+		wg.Add(1)
+		go func() {
+			defer wg.Done()
+			for rd := int64(1); rd <= int64(rounds); rd++ {
+				for round.Load() < rd {
+					runtime.Gosched()
+				}
+				k := keys[int(rd)%len(keys)]
+				if v, err := c.Get(context.Background(), k); err == nil && int(v>>40) != k {
+					wrong.Add(1)
+					first.CompareAndSwap(nil, fmt.Sprintf("round %d: Get(%d) returned %#x, a value the loader made for key %d", rd, k, v, v>>40))
+				}
+				done.Add(1)
+			}
+		}()
+	}
+	for rd := int64(1); rd <= int64(rounds); rd++ {
+		c.Delete(keys[int(rd)%len(keys)])
+		round.Store(rd)
+		for done.Load() < rd*int64(G) {
+			runtime.Gosched()
+		}
+	}
+	wg.Wait()
+	per := rounds
+	if w := wrong.Load(); w > 0 {
+		r.Violate("value-of-another-key/concurrent-loads-in-one-shard", fmt.Sprintf("storm %d (%d goroutines, %d keys of one shard, loading cache): %d Gets returned a value that was loaded for another key (first: %v)", idx, G, len(keys), w, first.Load()),
+			map[string]any{"storm": idx, "goroutines": G, "gets_per_goroutine": per})
+	}
+	r.Eval(1)
+	r.Count("storm_gets", int64(G*per))
+	r.Count("storm_loads", seq.Load())
+	r.Distinct(fmt.Sprintf("storm/G%d", G))
+}
+
 func c01LeaderWindow(r *Run, variant int) {
-	cfg := c01Cfg{Kind: "loading", MaxSize: 100, Clients: 4, Keys: 1, Pool: variant%2 == 1}
+	cfg := c01Cfg{Kind: "loading", MaxSize: 100, Clients: 4, Keys: 1, Pool: variant%2 == 1 && r.Args["racepass"] == ""}
 	api, err := c01Build(cfg, nil)
 	if err != nil {
 		r.Broken("build: %v", err)
@@ -388,6 +457,7 @@ func runC01(r *Run) {
 			spin(int(hookHits.Add(1) % 5))
 		}
 	})
+	c01Storm(r, r.Shard)
 	for n := 0; n < total; n++ {
 		if n%r.NShards != r.Shard {
 			continue
@@ -397,6 +467,12 @@ func runC01(r *Run) {
 		cfg := c01Cfg{Kind: v.kind, Doorkeeper: v.doorkeeper, Pool: v.pool,
 			MaxSize: sizes[rng.Intn(len(sizes))], Clients: 4 + rng.Intn(13), Ops: 150 + rng.Intn(251), Keys: 3 + rng.Intn(10),
 			TTLs: rng.Intn(2) == 0, Delay: rng.Intn(3), Ranges: rng.Intn(3) > 0, SameShard: rng.Intn(2) == 0, SlowRange: rng.Intn(2) == 0}
+		if r.Args["racepass"] != "" {
+			// under the race detector the pool stays off: with it an entry is recycled while events for its previous
+			// life are still queued (the README says so), and the detector reports exactly that - not this property's
+			// business and outside the "no data races" claim, which is made for the pool disabled
+			cfg.Pool = false
+		}
 		delayMode.Store(int32(cfg.Delay))
 		hist, err := c01History(cfg, rng.Int63())
 		if err != nil {
